@@ -45,7 +45,7 @@ ORet ==
 OCrash ==
   /\ Is("crash") /\ LoadDisk(E.state)
   /\ UNCHANGED <<scn, ord, rules, env, vol>> /\ verdict' = "none"
-  /\ ev' = [a |-> "crash", inexec |-> E.inexec]
+  /\ ev' = [a |-> "crash", inexec |-> E.inexec, taken |-> E.taken]
   /\ g' = Fold(g, ev', ws', cache', hist', fstab', rdir', {})
 
 ONext == TReset \/ TLoad \/ OCrash \/ OUser \/ OStart \/ OEvent \/ ORet
